@@ -324,6 +324,10 @@ func c16Ctor(c *Ctx, ctor *Func) {
 			case *ast.CallExpr:
 				if callee := calleeOf(info, par); callee != nil && w.byObj[callee] != nil {
 					usage = "value"
+					// a helper that turns the result into the error to report uses it as an error
+					if rs := w.byObj[callee].Sig().Results(); rs.Len() == 1 && typeStr(rs.At(0).Type()) == "error" {
+						usage = "error"
+					}
 				}
 			case *ast.SelectorExpr:
 				switch par.Sel.Name {
@@ -411,6 +415,19 @@ func c16Ctor(c *Ctx, ctor *Func) {
 			proved, how := false, "the gate performs no "+u.usage+"-type test on result "+itoa(int(u.k))
 			for _, t := range tests {
 				at := site{pos: ret.Pos(), anc: ret}
+				// the test's verdict kept in a boolean local assigned once: the local is what the path tests
+				if as, ok := w.parent[t].(*ast.AssignStmt); ok && len(as.Lhs) == 1 && len(as.Rhs) == 1 && as.Rhs[0] == t {
+					if id := identOf(as.Lhs[0]); id != nil {
+						if obj := info.Defs[id]; obj != nil && len(ge.assigns[obj]) == 1 {
+							use := &ast.Ident{NamePos: id.Pos(), Name: id.Name}
+							info.Uses[use] = obj
+							if ok, h := ge.Prove(ret, ge.cond(keyCtx{e: ge, s: &at}, use, 0)); ok {
+								proved, how = true, "entailed by "+exprStr(t)+", kept in "+id.Name+" ("+h+")"
+								break
+							}
+						}
+					}
+				}
 				if ok, h := ge.Prove(ret, ge.cond(keyCtx{e: ge, s: &at}, t, 0)); ok {
 					proved, how = true, "entailed by "+exprStr(t)+" ("+h+")"
 					break
@@ -537,6 +554,74 @@ func gateNumOut(w *World, gate *Func) gateTable {
 			}
 		}
 		if len(t.numOut[cv]) == 0 {
+			// by elimination: NumOut() is one of 0, 1, 2, … ; if the path refutes every count up to 8 but one, and refutes
+			// "greater than" that one through a count test of the form n > c / n >= c, that one holds
+			e := w.ent(gate)
+			x := w.expander(gate)
+			at := site{pos: ret.Pos(), anc: ret}
+			kc := keyCtx{e: e, s: &at}
+			var cands []ast.Expr
+			walkNoLit(gate.Body, func(q ast.Node) bool {
+				switch y := q.(type) {
+				case *ast.CallExpr:
+					if sel, ok := unparen(y.Fun).(*ast.SelectorExpr); ok && sel.Sel.Name == "NumOut" && len(y.Args) == 0 {
+						cands = append(cands, y)
+					}
+				case *ast.Ident:
+					if v, ok := info.Uses[y].(*types.Var); ok && !v.IsField() {
+						if rhs, idx, _, ok := x.def(v); ok && rhs != nil && idx < 0 {
+							if c2, ok := unparen(rhs).(*ast.CallExpr); ok {
+								if sel, ok := unparen(c2.Fun).(*ast.SelectorExpr); ok && sel.Sel.Name == "NumOut" {
+									cands = append(cands, y)
+								}
+							}
+						}
+					}
+				}
+				return true
+			})
+			for _, cand := range cands {
+				var possible []int64
+				for k := int64(0); k <= 8; k++ {
+					if ok, _ := e.Prove(ret, Not{e.intEq(kc, cand, k)}); !ok {
+						possible = append(possible, k)
+					}
+				}
+				// an upper bound test refuted on the path: some comparison cand > c (or >= c+1) entailed false
+				bounded := int64(-1)
+				walkNoLit(gate.Body, func(q ast.Node) bool {
+					b, ok := q.(*ast.BinaryExpr)
+					if !ok || (b.Op != token.GTR && b.Op != token.GEQ) || exprStr(b.X) != exprStr(cand) {
+						return true
+					}
+					tv, ok := info.Types[b.Y]
+					if !ok || tv.Value == nil {
+						return true
+					}
+					cst, _ := constant.Int64Val(tv.Value)
+					if b.Op == token.GEQ {
+						cst--
+					}
+					if ok, _ := e.Prove(ret, Not{e.cond(kc, b, 0)}); ok && (bounded < 0 || cst < bounded) {
+						bounded = cst // cand <= cst
+					}
+					return true
+				})
+				if bounded >= 0 {
+					var within []int64
+					for _, k := range possible {
+						if k <= bounded {
+							within = append(within, k)
+						}
+					}
+					if len(within) == 1 {
+						t.numOut[cv] = append(t.numOut[cv], within[0])
+						break
+					}
+				}
+			}
+		}
+		if len(t.numOut[cv]) == 0 {
 			t.numOut[cv] = append(t.numOut[cv], -1)
 		}
 		return true
@@ -638,8 +723,17 @@ func c16Converters(c *Ctx) {
 								_ = j
 							}
 						}
-						// extract "$args[IDX]" occurrence
-						if a := strings.Index(src, "($"); a >= 0 {
+						// extract "$args[IDX]" occurrence: first by the name of the closure's argument list
+						if ls := lit.Sig(); ls != nil && ls.Params().Len() == 1 {
+							pat := "($" + ls.Params().At(0).Name() + "["
+							if a := strings.LastIndex(src, pat); a >= 0 {
+								rest := src[a+len(pat):]
+								if e2 := strings.Index(rest, "])"); e2 >= 0 {
+									idx = rest[:e2]
+								}
+							}
+						}
+						if a := strings.Index(src, "($"); a >= 0 && idx == "" {
 							rest := src[a+1:]
 							if b := strings.Index(rest, "["); b >= 0 {
 								if e2 := strings.Index(rest[b:], "])"); e2 >= 0 {
@@ -658,6 +752,38 @@ func c16Converters(c *Ctx) {
 							okC, why = true, "a variadic argument is converted to the variadic element type "+typ
 						default:
 							why = "argument " + idx + " is converted to " + typ + ", not to the declared type of parameter " + idx + " (" + wantPlain + ")"
+							// a table of the parameter types, filled as T[j] = functionType.In(j) by every store to it, read at the argument's index
+							if tix, ok := unparen(conv.Args[0]).(*ast.IndexExpr); ok && lx.str(tix.Index) == idx {
+								if tid := identOf(tix.X); tid != nil && unparen(tix.X) == ast.Expr(tid) {
+									tobj := info.Uses[tid]
+									mx := w.expander(mk)
+									stores, good := 0, true
+									ast.Inspect(mk.Body, func(q ast.Node) bool {
+										as, ok := q.(*ast.AssignStmt)
+										if !ok {
+											return true
+										}
+										for i, l := range as.Lhs {
+											six, ok := unparen(l).(*ast.IndexExpr)
+											if !ok {
+												continue
+											}
+											sid := identOf(six.X)
+											if sid == nil || unparen(six.X) != ast.Expr(sid) || info.Uses[sid] != tobj {
+												continue
+											}
+											stores++
+											if len(as.Rhs) != len(as.Lhs) || mx.str(as.Rhs[i]) != tparam+".In("+mx.str(six.Index)+")" {
+												good = false
+											}
+										}
+										return true
+									})
+									if tobj != nil && stores > 0 && good {
+										okC, why = true, "argument "+idx+" is converted to "+exprStr(conv.Args[0])+", a table every store of which is T[j] = "+tparam[1:]+".In(j)"
+									}
+								}
+							}
 						}
 					}
 				}
